@@ -160,6 +160,28 @@ theorem C25_dispatcher_majority (arbs : List Arb) (votes : List Vote)
     obtain ⟨k, hk, rfl⟩ := List.mem_map.1 hs
     exact isNormalArb_iff.1 (hv k hk).1
 
+/-- `CleanProposals` (view change or finished height) drops everything collected before it: what
+    the dispatcher holds afterwards is determined by the votes received since, so
+    `C25_dispatcher_collects_valid` / `C25_dispatcher_majority` apply to the votes of the current
+    view alone. -/
+theorem C25_dispatcher_clean (arbs : List Arb) : ∀ (before : List DItem) (acc : List (Nat × Bool))
+    (votes : List Vote),
+    dispFinalI arbs acc (before ++ DItem.clean :: votes.map DItem.vote) = dispFinal arbs [] votes := by
+  have hv : ∀ (votes : List Vote) (acc : List (Nat × Bool)),
+      dispFinalI arbs acc (votes.map DItem.vote) = dispFinal arbs acc votes := by
+    intro votes
+    induction votes with
+    | nil => intro acc; rfl
+    | cons v vs ih => intro acc; simp only [List.map_cons, dispFinalI, dispFinal]; exact ih _
+  intro before
+  induction before with
+  | nil => intro acc votes; simp only [List.nil_append, dispFinalI]; exact hv votes []
+  | cons x xs ih =>
+    intro acc votes
+    cases x with
+    | vote v => simp only [List.cons_append, dispFinalI]; exact ih _ votes
+    | clean => simp only [List.cons_append, dispFinalI]; exact ih _ votes
+
 example : hasMajority 4 (dispFinal [⟨1, true⟩, ⟨2, true⟩, ⟨3, true⟩, ⟨4, true⟩] []
     [⟨1, true, true, true⟩, ⟨1, true, true, true⟩, ⟨2, true, true, true⟩, ⟨9, true, true, true⟩,
      ⟨3, true, true, true⟩]).length = true := by decide
